@@ -42,8 +42,8 @@ def bclass(b):
     tw = sorted({("tw" if l["tw"] != "none" else "plain") for l in link.values()})
     shapes = sorted("%s:%s" % (sh, n if n == "device" else "other")
                     for n, sh in _dict(b.get("shape")).items() if sh != "canon")
-    return "%s|%s|%s|%s|%s" % (b["phase"], "+".join(corr) or "none", ",".join(verdicts) or "-", "/".join(tw) or "-",
-                               "+".join(shapes) or "canon")
+    return "%s|%s|%s|%s|%s|%s" % (b["phase"], "+".join(corr) or "none", ",".join(verdicts) or "-",
+                                  "/".join(tw) or "-", "+".join(shapes) or "canon", b.get("spell", "ok"))
 
 
 def tsig(clause, t):
@@ -95,6 +95,11 @@ def run(ctx):
         "tweak_report_drift, not as a violation",
         "elements and links that the model's program never reads are filled with seeded random content "
         "(exhaustive over what is read, sampled over what is not)",
+        "spelling of hex fields: the file's spelling is an environment choice; every accepted member (upper / "
+        "mixed case, blanks before, after and between byte pairs, tabs, trailing newline) must give the verdicts "
+        "and values of the canonical spelling, and a well-formed certificate so written must load; every member of "
+        "both classes is run on every hex field of every element of one chain, and 30 % of all other certificates "
+        "carry one seeded accepted re-spelling; files with a refused spelling are only required not to hang",
         "keys and signatures are made with textbook ECDSA (RFC 6979, low-S DER) over python-ecdsa's curve "
         "arithmetic, tweaks with hmac/hashlib; the code under test verifies with libsecp256k1; the thorough "
         "tier draws keys from a per-run population of 64 fresh keys",
@@ -102,7 +107,8 @@ def run(ctx):
     nproc = ctx.pick(4, 8)
     # 1. design checks -----------------------------------------------------------------------
     # quick: the 1-target configuration is checked (same constants, all invariants) by the generation run
-    runs = ctx.pick([("MC_CertChain2.cfg", "MC_CertChain2: <=2 targets, <=1 corruption (reduced kinds), <=1 over-long message")],
+    runs = ctx.pick([("MCL_CertChain2.cfg", "MCL_CertChain2: <=2 targets, <=1 corruption (reduced kinds), <=1 over-long message; "
+                                            "invariants + Terminates under WF (no state constraint)")],
                     [("MC_CertChain.cfg", "MC_CertChain: 1 target, <=1 corruption (all kinds), <=1 certifier with a shaped message"),
                      ("MC_CertChain2.cfg", "MC_CertChain2: <=2 targets, <=1 corruption (reduced kinds), <=1 over-long message"),
                      ("MCS_CertChain.cfg", "MCS_CertChain: 1 target, <=1 corruption, <=2 shaped messages (5 shapes), also on the "
@@ -121,10 +127,11 @@ def run(ctx):
     if never:
         raise core.MachineryError("vacuity: actions never taken: %s" % never)
     res.coverage["uncovered_actions"] = never
-    rl = tlc.check("CertChain", "Live_CertChain.cfg", workers=4)
-    if rl.violated:
-        raise core.MachineryError("CertChain: termination / step bound violated: %s" % rl.violated)
-    res.add_tlc(rl, "Live_CertChain: Terminates under WF, no state constraint")
+    if not ctx.quick:       # (quick: termination is part of the MCL run above)
+        rl = tlc.check("CertChain", "Live_CertChain.cfg", workers=4)
+        if rl.violated:
+            raise core.MachineryError("CertChain: termination / step bound violated: %s" % rl.violated)
+        res.add_tlc(rl, "Live_CertChain: Terminates under WF, no state constraint")
     negs = []
     for cfg, inv in (("Neg_CertChain.cfg", "NeverValid"), ("Neg2_CertChain.cfg", "NeverInvalidBelowTop"),
                      ("Neg3_CertChain.cfg", "NeverRefusedForShape")):
@@ -164,7 +171,7 @@ def run(ctx):
         raise core.MachineryError("vacuity: message shapes never generated on a certifier: %s" % missing_shapes)
     res.coverage["message_shape_classes_generated"] = sorted(shapes_seen)
     # quick: every class at least once + a seeded sample; thorough: everything
-    budget = ctx.pick(1300, 120000)
+    budget = ctx.pick(1300, 80000)
     chosen = []
     for c in sorted(classes):
         chosen.append(ctx.rng.choice(classes[c]))
@@ -183,14 +190,17 @@ def run(ctx):
     res.coverage["behaviours_replayed"] = len(chosen)
     res.coverage["certificates_from_behaviours"] = n_model
     # 3. binding B: random certificates, byte sweep ----------------------------------------------
-    n_rand = ctx.pick(600, 30000)
+    n_rand = ctx.pick(600, 20000)
     plans += [certchain.random_plan(ctx.rng) for _ in range(n_rand)]
     sweep = certchain.sweep_plans(ctx.rng, ctx.pick(1, 8))
     if ctx.quick:
         sweep = sweep[::2] if len(sweep) > 500 else sweep
     plans += sweep
+    spelt = certchain.spelling_plans(ctx.rng)
+    plans += spelt
     res.coverage["random_certificates"] = n_rand
     res.coverage["byte_sweep_certificates"] = len(sweep)
+    res.coverage["spelling_certificates"] = len(spelt)
     if not ctx.quick:
         # thorough: keys are drawn from a per-run population instead of being generated per certificate
         for p in plans[:n_model + n_rand]:
@@ -221,11 +231,16 @@ def run(ctx):
                 drift += 1
                 break
     res.coverage["model_drift"] = drift
+    from ..certv1 import SPELL_REFUSED, SPELL_ACCEPTED
+    res.coverage["spellings_run"] = {m: sum(1 for t in traces if t["spell"] == m)
+                                     for m in SPELL_ACCEPTED[1:] + SPELL_REFUSED}
+    res.coverage["refused_spelling_but_loaded"] = sum(1 for t in traces if t["spell"] in SPELL_REFUSED
+                                                      and t["outcome"] == "loaded")
     res.coverage["tweak_report_drift"] = sum(t["tweak_drift"] for t in traces)
     res.coverage["corruptions_not_applicable_skipped"] = sum(len(t["skipped"]) for t in traces)
     # 5. TLC judges every result map ---------------------------------------------------------------
     payload = [{"id": t["id"], "rootkey": t["rootkey"], "targets": t["targets"], "els": t["els"],
-                "outcome": t["outcome"], "res": t["res"]} for t in traces]
+                "spell": t["spell"], "outcome": t["outcome"], "res": t["res"]} for t in traces]
     verdicts, stats = tlc.validate("TraceCertChain", "Trace_CertChain.cfg", payload,
                                    shards=ctx.pick(4, 8))
     res.checker_cmds.append("tlc -workers 1 -config Trace_CertChain.cfg TraceCertChain (x%d shards)" % stats["jvms"])
@@ -257,7 +272,7 @@ def run(ctx):
             break
         if verdicts[t["id"]]["ok"] and t["res"]:
             p = {"id": len(doctored) + 1, "rootkey": t["rootkey"], "targets": t["targets"], "els": t["els"],
-                 "outcome": t["outcome"], "res": [dict(r) for r in t["res"]]}
+                 "spell": "", "outcome": t["outcome"], "res": [dict(r) for r in t["res"]]}
             r = p["res"][0]
             how = len(doctored) % 3
             if how == 0:
@@ -291,7 +306,7 @@ def replay(ctx, path):
     t["id"] = 1
     verdicts, _ = tlc.validate("TraceCertChain", "Trace_CertChain.cfg",
                                [{"id": 1, "rootkey": t["rootkey"], "targets": t["targets"], "els": t["els"],
-                                 "outcome": t["outcome"], "res": t["res"]}])
+                                 "spell": t["spell"], "outcome": t["outcome"], "res": t["res"]}])
     ch = certchain.build_plan(plan)
     print(json.dumps({"plan": plan, "certificate": ch.cert, "root": ch.root_hex, "outcome": t["outcome"],
                       "result": t["res"], "err": t["err"], "verdict": verdicts[1]}, indent=1))
